@@ -17,7 +17,7 @@ import ast
 from ..astutil import call_name, calls, dotted, names_in, param_names, stmts, walk_local
 from ..core import AnalysisError, Mutant
 from .. import facts
-from ..exprnorm import same_expr, spec
+from ..exprnorm import contains_expr, same_expr, spec
 
 EXPLANATION = (
     "Structural characters of TreeNode.from_newick vs. the writer's illegal-label list; "
@@ -30,6 +30,28 @@ MIN_OBLIGATIONS = 22
 TREE = "sequence/phylo/tree.pyx"
 UPGMA = "sequence/phylo/upgma.pyx"
 NJ = "sequence/phylo/nj.pyx"
+
+
+def _distance_strings_ok(tn):
+    """every string the writer builds with a distance ends in `:<distance>` (plain or rounded), directly after the label or the
+    closing bracket of the children"""
+    found = 0
+    for x in ast.walk(tn):
+        if not isinstance(x, ast.JoinedStr):
+            continue
+        pos = [k for k, v in enumerate(x.values) if isinstance(v, ast.FormattedValue) and same_expr(v.value, "self._distance")]
+        if not pos:
+            continue
+        found += 1
+        k = pos[0]
+        if len(pos) != 1 or k != len(x.values) - 1 or k == 0 or not (isinstance(x.values[k - 1], ast.Constant) and str(x.values[k - 1].value).endswith(":")):
+            return False
+        before = x.values[k - 1].value
+        if before == ":" and not (k >= 2 and isinstance(x.values[k - 2], ast.FormattedValue) and same_expr(x.values[k - 2].value, "label")):
+            return False
+        if before != ":" and not before.endswith("):"):
+            return False
+    return found >= 2
 
 
 def run(ctx):
@@ -75,15 +97,17 @@ def run(ctx):
     floats = [c for f_ in scope for c in ast.walk(f_) if isinstance(c, ast.Call) and call_name(c) == "float"]
     ctx.ob("R1.distance-syntax", TREE, "TreeNode.from_newick", "label, distance = s.split(':'); float(distance)",
            bool(splits) and bool(floats)
-           and "f'{label}:{self._distance}'" in ast.unparse(tn),
+           and _distance_strings_ok(tn),
            "distance must follow the label after a colon in both directions", fn.lineno, nontrivial=False)
     ctx.ob("R1.terminator", TREE, "Tree.to_newick", "root string + ';' / strip trailing ';'",
-           "+ ';'" in ast.unparse(s.func("Tree.to_newick")) and "newick[-1] == ';'" in ast.unparse(tf),
+           any(isinstance(x, ast.BinOp) and isinstance(x.op, ast.Add) and same_expr(x.right, "';'") for x in ast.walk(s.func("Tree.to_newick")))
+           and contains_expr(tf, "newick[-1] == ';'"),
            "the terminating semicolon is added by the writer and removed by the parser", tf.lineno, nontrivial=False)
     # label lookup uses the same list in both directions
     ctx.ob("R1.label-index", TREE, "TreeNode.from_newick", "labels[self._index]  <->  labels.index(label)",
-           "labels[self._index]" in ast.unparse(tn) and "labels.index(label)" in ast.unparse(fn)
-           and "int(label) if labels is None" in ast.unparse(fn) and "label = str(self._index)" in ast.unparse(tn),
+           contains_expr(tn, "labels[self._index]") and contains_expr(fn, "labels.index(label)")
+           and any(isinstance(x, ast.IfExp) and same_expr(x.test, "labels is None") and same_expr(x.body, "int(label)") for x in ast.walk(fn))
+           and any(isinstance(x, ast.Assign) and same_expr(x.targets[0], "label") and same_expr(x.value, "str(self._index)") for x in ast.walk(tn)),
            "leaf labels map to indices through the same list (or the index itself)", fn.lineno)
 
     # the parser ignores whitespace of every kind (line breaks and tabs of a wrapped file as well as blanks)
@@ -156,11 +180,14 @@ def run(ctx):
     # ---------------- R3 copy, eq/hash ------------------------------------------------
     cc = s.func("Tree.__copy_create__")
     ctx.ob("R3.copy-fresh", TREE, "Tree.__copy_create__", ast.unparse(cc.body[-1]),
-           "Tree(self._root.copy())" in ast.unparse(cc), "a tree copy must be built from a copy of the root", cc.lineno)
+           contains_expr(cc, "Tree(self._root.copy())"), "a tree copy must be built from a copy of the root", cc.lineno)
     nc = s.func("TreeNode.copy")
     ctx.ob("R3.copy-fresh", TREE, "TreeNode.copy", "recursive child.copy() with the children's distances",
-           "[child.copy() for child in self._children]" in ast.unparse(nc) and "[child.distance for child in self._children]" in ast.unparse(nc)
-           and "TreeNode(index=self._index)" in ast.unparse(nc), "a node copy must copy all descendants and keep the distances", nc.lineno)
+           any(isinstance(x, ast.ListComp) and len(x.generators) == 1 and isinstance(x.generators[0].target, ast.Name)
+               and same_expr(x.generators[0].iter, "self._children") and same_expr(x.elt, f"{x.generators[0].target.id}.copy()") for x in ast.walk(nc))
+           and any(isinstance(x, ast.ListComp) and len(x.generators) == 1 and isinstance(x.generators[0].target, ast.Name)
+                   and same_expr(x.generators[0].iter, "self._children") and same_expr(x.elt, f"{x.generators[0].target.id}.distance") for x in ast.walk(nc))
+           and contains_expr(nc, "TreeNode(index=self._index)"), "a node copy must copy all descendants and keep the distances", nc.lineno)
     eq, hs = s.func("TreeNode.__eq__"), s.func("TreeNode.__hash__")
     def fields(f):
         return {n.attr for n in ast.walk(f) if isinstance(n, ast.Attribute) and isinstance(n.value, ast.Name)
@@ -169,7 +196,7 @@ def run(ctx):
            fields(eq) == fields(hs) == {"_distance", "_index", "_children"},
            "objects that compare equal must hash equal: both must use index, children (as a set) and distance", hs.lineno)
     ctx.ob("R3.eq-hash-same-fields", TREE, "TreeNode.__eq__", "children compared as frozenset in both",
-           "frozenset(self._children)" in ast.unparse(eq) and "frozenset(self._children)" in ast.unparse(hs),
+           contains_expr(eq, "frozenset(self._children)") and contains_expr(hs, "frozenset(self._children)"),
            "child order must not matter for equality and hash alike", eq.lineno)
     # distance / LCA
     dt = s.func("TreeNode.distance_to")
@@ -270,8 +297,8 @@ def run(ctx):
                "a sweep over the nodes that stops at the first clustered node leaves stale distances / misses the closest pair"
                + (f" (line {early[0].lineno})" if early else ""), f.lineno)
         ctx.ob("R4.input-checks", rel, q, "symmetric, no NaN, finite, non-negative",
-               "np.allclose(distances.T, distances)" in t and "np.isnan(distances).any()" in t and "(distances < 0).any()" in t
-               and "(distances >= MAX_FLOAT).any()" in t, "the distance matrix must be validated", f.lineno, nontrivial=False)
+               all(contains_expr(f, x) for x in ("np.allclose(distances.T, distances)", "np.isnan(distances).any()", "(distances < 0).any()",
+                                                 "(distances >= MAX_FLOAT).any()")), "the distance matrix must be validated", f.lineno, nontrivial=False)
     # cluster sizes count leaves: up to the number of input sequences, which needs at least 32 bits
     ulow = ctx.src(UPGMA).low
     ct = ulow.ctype("upgma", "cluster_size_v").replace("const ", "")
